@@ -554,7 +554,7 @@ func (t *fnTrans) call(in ssa.Instruction, cc *ssa.CallCommon, res ssa.Value) {
 	}
 	if t.contract != nil {
 		// event log: which functions this activation called (spec: called("Name"))
-		t.event("called", t.c.declare("callee:"+calleeName(cc), "Int"), "")
+		t.event("called", nameTag("callee:"+calleeName(cc)), "")
 	}
 	if b, ok := cc.Value.(*ssa.Builtin); ok && !cc.IsInvoke() {
 		t.builtin(in, b, cc, res)
